@@ -824,6 +824,13 @@ def backendCall {β : Type} (f : List α → β) (args : List (PyVal α)) : Exce
   | .error e => .error e
   | .ok xs => .ok (f xs)
 
+/-- `Backend.__getattr__` / `_wrap_numpy` with CONTAINER arguments (`be.sum([[1000*m/km, 1], [3, 4]], axis=1)`): every positional argument,
+    scalar or container, goes through `to_unitless(arg)` (target `pq.dimensionless`), in order; the wrapped function receives the results -/
+def backendCallV {β : Type} (f : List (Res α) → β) (args : List (Val α)) : Except Err β :=
+  match toUnitlessList args (.qty Quantity.dimensionless) with
+  | .error e => .error e
+  | .ok rs => .ok (f rs)
+
 /-- `_wrap_numpy(k)` (units.py 731-744), the wrapper behind `patched_numpy.log/log10/log2/log1p/exp/expm1/logaddexp/logaddexp2`:
     `numpy_func(*map(to_unitless, args), **kwargs)` — literally the `Backend` wrapper -/
 def wrapNumpy {β : Type} (numpyFunc : List α → β) (args : List (PyVal α)) : Except Err β :=
@@ -843,6 +850,22 @@ def ownUnit? (name : String) : Option (Unit α) :=
 /-- `SI_base_registry` as a model registry -/
 def siRegistry : Registry α :=
   Gen.Units.siRegistry.map fun r => .qty ⟨((1 : Nat) : α), ⟨fracOf r.2.1, r.2.2⟩⟩
+
+/-- a named derived unit of `quantities` (`Gen.Units.namedUnits`: litre, joule, newton, pascal, …) after `.simplified` -/
+def namedUnit? (name : String) : Option (Unit α) :=
+  (Gen.Units.namedUnits.find? (·.1 == name)).map fun r => ⟨fracOf r.2.1, r.2.2⟩
+
+/-- a row of `Gen.Units.hrUnits` (a standard prefixed unit of the installed `quantities`) as a unit object -/
+def hrSymUnit (r : Nat × String × String × (Int × Nat) × List Int) : SymUnit α :=
+  ⟨r.2.2.1, ⟨fracOf r.2.2.2.1, r.2.2.2.2⟩⟩
+
+/-- the standard prefixed units with the registry key (index) they belong to -/
+def standardUnits : List (Nat × SymUnit α) := Gen.Units.hrUnits.map fun r => (r.1, hrSymUnit r)
+
+/-- the unit-string parser of `quantities` (`pq.Quantity(0, symbol).dimensionality`) on the extracted symbols
+    (`Gen.Units.hrParse`); any other string: `none` here (the real parser knows many more) -/
+def hrLookup (s : String) : Option (List (SymUnit α × Int)) :=
+  (Gen.Units.hrParse.lookup s).map fun l => l.map fun p => ((⟨p.1, ⟨fracOf p.2.1, p.2.2.1⟩⟩ : SymUnit α), p.2.2.2)
 
 end Generic
 
